@@ -308,6 +308,16 @@ def tmplRun (extra : String) : String × String :=
      "tmpl:" ++ hexOfString (String.ofList (Spec.Template.replaceOneSpec g k r)))
   | _ => ("badtmpl", "-")
 
+/-- `wide` kind: extra = `N;i;j` — the union of the i-th and the j-th of N like children (and of their attributes,
+and the sequence form): two different nodes are two nodes, whatever their distance (`C11_main`, `key_injective`) -/
+def wideRun (extra : String) : String :=
+  match (extra.splitOn ";").map String.toNat! with
+  | [n, i, j] =>
+    let ok (k : Nat) : Bool := 1 ≤ k && k ≤ n
+    let c : Nat := if ok i && ok j then (if i == j then 1 else 2) else if ok i || ok j then 1 else 0
+    s!"wide:{c},{c},{c}"
+  | _ => "badwide"
+
 def runCase (rc : RunCfg) (c : Case) : String × String :=
   match c.kind with
   | "sel" => (modelSel rc c c.expr c.ctx, sortedSet c.doc (specEval c c.expr c.ctx))
@@ -364,6 +374,7 @@ def runCase (rc : RunCfg) (c : Case) : String × String :=
   | "cache" => (cacheRun c.extra, "-")
   | "rxcache" => (rxCacheRun c.extra, "-")
   | "tmpl" => tmplRun c.extra
+  | "wide" => (wideRun c.extra, wideRun c.extra)
   | _ => ("-", "-")
 
 partial def loop (rc : RunCfg) (hin : IO.FS.Stream) (hout : IO.FS.Stream) : IO Unit := do
